@@ -25,4 +25,7 @@ def run(tier, seed):
         potential_rel.run(chk, "C08", tier, seed)
     except ImportError:
         chk.notes.append("bounded part (potential_rel) not built yet")
+    # the load vector through the disk cache (histories with other element lists of the same length, damaged files)
+    from bounded import cache_faults
+    cache_faults.run(chk, tier, seed, only="vector", pid="C08")
     return chk.finish()
